@@ -70,10 +70,11 @@ theorem trace_header_line_partial (s : MState) (k : Key) (x : Slot) (i : Nat)
     memAll (startTrace s k) k = (if x.mem.isSome then [headerOf (s.loopOrder.take (i + 1))] else []) :=
   startTrace_header s k x i hs hl hc hm
 
-/-- `incIter`, `endIter`, `matchRanks`, `consumeTrace` and `endCollect` add no line to any trace:
-    together with `trace_use_one_row` — rows come from `addUse` only, one per call, in call order. -/
+/-- `incIter`, `endIter`, `consumeTrace` and `endCollect` add no line to any trace (`registerRank` and a
+    `matchRanks` with an already registered rank add headers only): together with `trace_use_one_row` —
+    rows come from `addUse` only, one per call, in call order. -/
 theorem trace_other_calls_no_rows (s : MState) (e : Ev) (k : Key)
-    (he : match e with | .inc _ => True | .endI _ => True | .matchR _ _ => True | .consume _ _ => True
+    (he : match e with | .inc _ => True | .endI _ => True | .consume _ _ => True
                        | .endCollect => True | _ => False) :
     C16.content (step s e) k = C16.content s k ∧ memAll (step s e) k = memAll s k :=
   step_keeps_lines s e k he
@@ -185,62 +186,87 @@ theorem trace_lazy_iter_addresses {σ S β : Type} (rank : String) (body : S →
     a projection yields the shifted coordinates inside the interval, cut at its upper end. -/
 theorem trace_lazy_yields_spec {α β : Type} (rank tyA tyB : String) (ta tb : Bool)
     (a : Fib Int α) (b : Fib Int β) (ha : Sorted a) (hb : Sorted b) (dfl : β)
-    (srcRank ty : String) (t : Bool) (off : Int) (lo hi : Option Int) :
-    yieldsOf (andSteps rank tyA tyB ta tb 0 0 a b) = andSpec a b ∧
-    yieldsOf (lfSteps rank rank tyA tyB ta dfl b 0 a) = a.map (fun e => (e.1, (e.2, (posLookup b e.1).getD dfl))) ∧
-    yieldsOf (projSteps srcRank ty t off lo hi a) =
+    (srcRank ty : String) (t : Bool) (off : Int) (lo hi : Option Int) (pa pb : List Nat) :
+    yieldsOf (andSteps rank tyA tyB ta tb pa pb a b) = andSpec a b ∧
+    yieldsOf (lfSteps rank rank tyA tyB ta dfl b pa a) = a.map (fun e => (e.1, (e.2, (posLookup b e.1).getD dfl))) ∧
+    yieldsOf (projSteps srcRank ty t off lo hi pa a) =
       ((a.takeWhile (fun e => !aboveHi hi (e.1 + off))).filter (fun e => inLo lo (e.1 + off))).map
         (fun e => (e.1 + off, e.2)) := by
-  refine ⟨?_, lfSteps_yields _ _ _ _ _ _ _ a 0, ?_⟩
+  refine ⟨?_, lfSteps_yields _ _ _ _ _ _ _ a pa, ?_⟩
   · rw [andSteps_yields, and_spec a b ha hb]
   · simp only [projSteps, yieldsOf]
-    exact projLoop_yields srcRank ty t off lo hi a 0
+    exact projLoop_yields srcRank ty t off lo hi a pa
 
-/-- `and_iterator`: every `intersect_i` row carries the coordinate of an element of its operand and
-    the index of that element IN THE SEQUENCE THE OPERAND PRESENTS (its non-empty elements).
-    `_partial`: this is the element's index in the fiber only when no empty element is stored before
-    it (`presentAny_eq_children`); on other operands the code reports the ordinal among non-empty
-    elements — open finding `addr:position-is-ordinal-among-nonempty-elements`. -/
-theorem trace_intersect_addresses_partial {α β : Type} (rank tyA tyB : String) (ta tb : Bool) (hAB : tyA ≠ tyB)
-    (a : Fib Int α) (b : Fib Int β) (r ty : String) (c pos : Int)
-    (h : Step.emit (.use r ty c pos) ∈ andSteps rank tyA tyB ta tb 0 0 a b) :
+/-- `and_iterator` on two stored operands: every `intersect_i` row carries the coordinate of a stored,
+    non-empty element of its operand and the index of that element in the operand's fiber. -/
+theorem trace_intersect_addresses (dflt : Int) (rank tyA tyB : String) (ta tb : Bool) (x y : AnyTree)
+    (r ty : String) (c pos : Int)
+    (h : Step.emit (.use r ty c pos) ∈ andSteps rank tyA tyB ta tb (presentIdx dflt x) (presentIdx dflt y)
+      (presentAny dflt x) (presentAny dflt y)) :
     r = rank ∧
-    ((ty = tyA ∧ ∃ (i : Nat) (p : α), pos = (i : Int) ∧ a[i]? = some (c, p)) ∨
-     (ty = tyB ∧ ∃ (i : Nat) (p : β), pos = (i : Int) ∧ b[i]? = some (c, p))) := by
-  obtain ⟨h1, h2⟩ := andSteps_addr rank tyA tyB ta tb hAB 0 0 a b r ty c pos h
+    ((ty = tyA ∧ ∃ (n : Nat) (p : AnyTree), pos = (n : Int) ∧ (children x)[n]? = some (c, p) ∧ anyEmpty dflt p = false) ∨
+     (ty = tyB ∧ ∃ (n : Nat) (p : AnyTree), pos = (n : Int) ∧ (children y)[n]? = some (c, p) ∧ anyEmpty dflt p = false)) := by
+  obtain ⟨h1, h2⟩ := andSteps_addr rank tyA tyB ta tb _ _ _ _ r ty c pos h
   refine ⟨h1, ?_⟩
   rcases h2 with ⟨e, i, p, e1, e2⟩ | ⟨e, i, p, e1, e2⟩
-  · exact Or.inl ⟨e, i, p, by simpa using e1, e2⟩
-  · exact Or.inr ⟨e, i, p, by simpa using e1, e2⟩
+  · obtain ⟨s1, s2⟩ := present_storage dflt x i (c, p) e2
+    exact Or.inl ⟨e, _, p, e1, s1, s2⟩
+  · obtain ⟨s1, s2⟩ := present_storage dflt y i (c, p) e2
+    exact Or.inr ⟨e, _, p, e1, s1, s2⟩
 
-/-- leader-follower intersection: the leader's rows carry the ordinal among the elements it presents
-    (`_partial` as above); the follower's rows (`getPayload(trace=…)`) carry the probed coordinate and
-    its lower-bound position in the follower AS STORED — the element's index when it is present. -/
-theorem trace_follower_addresses_partial {α β : Type} (rankA rankB tyA tyB : String) (ta : Bool) (dfl : β)
-    (b : Fib Int β) (a : Fib Int α) (r ty : String) (c pos : Int)
-    (h : Step.emit (.use r ty c pos) ∈ lfSteps rankA rankB tyA tyB ta dfl b 0 a) :
-    (r = rankA ∧ ty = tyA ∧ ∃ (i : Nat) (p : α), pos = (i : Int) ∧ a[i]? = some (c, p)) ∨
-    (r = rankB ∧ ty = tyB ∧ pos = ((lowerBound b c : Nat) : Int) ∧ ∃ (i : Nat) (p : α), a[i]? = some (c, p)) := by
-  rcases lfSteps_addr rankA rankB tyA tyB ta dfl b a 0 r ty c pos h with ⟨e1, e2, i, p, e3, e4⟩ | h
-  · exact Or.inl ⟨e1, e2, i, p, by simpa using e3, e4⟩
-  · exact Or.inr h
+/-- leader-follower intersection: the leader's rows carry the coordinate of a stored, non-empty element
+    of the leader and its index in the leader's fiber; the follower's rows (`getPayload(trace=…)`)
+    carry the probed coordinate and its lower-bound position in the follower as stored — the
+    element's index when it is present. -/
+theorem trace_follower_addresses (dflt : Int) (rankA rankB tyA tyB : String) (ta : Bool) (dfl : AnyTree)
+    (x y : AnyTree) (r ty : String) (c pos : Int)
+    (h : Step.emit (.use r ty c pos) ∈ lfSteps rankA rankB tyA tyB ta dfl (children y) (presentIdx dflt x) (presentAny dflt x)) :
+    (r = rankA ∧ ty = tyA ∧ ∃ (n : Nat) (p : AnyTree), pos = (n : Int) ∧ (children x)[n]? = some (c, p) ∧
+      anyEmpty dflt p = false) ∨
+    (r = rankB ∧ ty = tyB ∧ pos = ((lowerBound (children y) c : Nat) : Int)) := by
+  rcases lfSteps_addr rankA rankB tyA tyB ta dfl (children y) _ _ r ty c pos h with ⟨e1, e2, i, p, e3, e4⟩ | ⟨e1, e2, e3, _⟩
+  · obtain ⟨s1, s2⟩ := present_storage dflt x i (c, p) e4
+    exact Or.inl ⟨e1, e2, _, p, e3, s1, s2⟩
+  · exact Or.inr ⟨e1, e2, e3⟩
 
-/-- `project_iterator`: every `project_i` row carries the SOURCE coordinate of an element of the
-    projected fiber whose image lies in the interval, and its ordinal among the presented elements
-    (`_partial` as above). -/
-theorem trace_project_addresses_partial {α : Type} (srcRank ty : String) (t : Bool) (off : Int) (lo hi : Option Int)
-    (a : Fib Int α) (s : Nat) (r ty' : String) (c pos : Int)
-    (h : Step.emit (.useSaved s r ty' c pos) ∈ projSteps srcRank ty t off lo hi a) :
-    r = srcRank ∧ ty' = ty ∧ ∃ (i : Nat) (p : α), pos = (i : Int) ∧ a[i]? = some (c, p) ∧
-      inLo lo (c + off) = true ∧ aboveHi hi (c + off) = false := by
+/-- `project_iterator` over a stored fiber: every `project_i` row carries the SOURCE coordinate of a
+    stored, non-empty element whose image lies in the interval, and its index in the source fiber. -/
+theorem trace_project_addresses (dflt : Int) (srcRank ty : String) (t : Bool) (off : Int) (lo hi : Option Int)
+    (x : AnyTree) (s : Nat) (r ty' : String) (c pos : Int)
+    (h : Step.emit (.useSaved s r ty' c pos) ∈ projSteps srcRank ty t off lo hi (presentIdx dflt x) (presentAny dflt x)) :
+    r = srcRank ∧ ty' = ty ∧ ∃ (n : Nat) (p : AnyTree), pos = (n : Int) ∧ (children x)[n]? = some (c, p) ∧
+      anyEmpty dflt p = false ∧ inLo lo (c + off) = true ∧ aboveHi hi (c + off) = false := by
   simp only [projSteps, List.mem_cons, Step.emit.injEq, reduceCtorEq, false_or] at h
-  obtain ⟨_, e2, e3, i, p, e4, e5, e6⟩ := projLoop_addr srcRank ty t off lo hi a 0 s r ty' c pos h
-  exact ⟨e2, e3, i, p, by simpa using e4, e5, e6⟩
+  obtain ⟨_, e2, e3, i, p, e4, e5, e6⟩ := projLoop_addr srcRank ty t off lo hi _ _ s r ty' c pos h
+  obtain ⟨s1, s2⟩ := present_storage dflt x i (c, p) e5
+  exact ⟨e2, e3, _, p, e4, s1, s2, e6⟩
 
-/-- `lshift_iterator`, source side and consumer: `populate_i` and `iter` rows of `z << src` carry an
-    offered coordinate and its index in the sequence the source yields (`_partial`: for a concrete
-    source fiber that sequence is the presented one, see above). -/
-theorem trace_populate_src_addresses_partial {σ π β : Type} (cfg : PopCfg) (mk : π) (rm : Bool → π → Bool)
+/-- `lshift_iterator`, source side and consumer: the `iter` rows of `z << src` carry an offered
+    coordinate and its index in the sequence the source yields; the `populate_i` rows carry an offered
+    coordinate and, for a stored source fiber `x`, the index of that element in `x` (for a lazy source:
+    its index in the yielded sequence). -/
+theorem trace_populate_src_addresses {σ : Type} (dflt : Int) (cfg : PopCfg) (mk : AnyTree) (rm : Bool → AnyTree → Bool)
+    (emptyP : AnyTree → Bool) (body : Int → AnyTree → AnyTree → AnyTree × σ) (ok : PopTypesOK cfg)
+    (x : AnyTree) (z : Fib Int AnyTree) (c pos : Int)
+    (h : Item.use cfg.rank cfg.srcTy c pos ∈
+      (popItems cfg mk rm emptyP body { z := z, bposs := some (presentIdx dflt x) }
+        ((presentAny dflt x).map (fun e => Step.yield e.1 e.2))).2) :
+    ∃ (n : Nat) (p : AnyTree), pos = (n : Int) ∧ (children x)[n]? = some (c, p) ∧ anyEmpty dflt p = false := by
+  have hy : ∀ (l : Fib Int AnyTree), yieldsOf (l.map (fun e => Step.yield e.1 e.2)) = l := by
+    intro l; induction l with
+    | nil => rfl
+    | cons e r ih => simp [yieldsOf, ih]
+  obtain ⟨i, p, e1, e2⟩ := popItems_src_addr cfg mk rm emptyP body ok _ _ cfg.srcTy c pos (Or.inl rfl)
+    (by intro i hi; simp at hi) h
+  rw [hy] at e2
+  obtain ⟨s1, s2⟩ := present_storage dflt x i (c, p) e2
+  refine ⟨_, p, ?_, s1, s2⟩
+  rw [e1]
+  simp [ok.si, srcPosAt]
+
+/-- … and for any source (stored or lazy) the `iter` rows and, for a lazy source, the `populate_i` rows of
+    `z << src` carry the index in the sequence the source yields. -/
+theorem trace_populate_lazy_addresses {σ π β : Type} (cfg : PopCfg) (mk : π) (rm : Bool → π → Bool)
     (emptyP : π → Bool) (body : Int → π → β → π × σ) (ok : PopTypesOK cfg)
     (steps : List (Step β)) (z : Fib Int π) (ty : String) (c pos : Int)
     (hty : ty = cfg.srcTy ∨ ty = "iter")
@@ -248,7 +274,9 @@ theorem trace_populate_src_addresses_partial {σ π β : Type} (cfg : PopCfg) (m
     (h : Item.use cfg.rank ty c pos ∈ (popItems cfg mk rm emptyP body { z := z } steps).2) :
     ∃ (i : Nat) (p : β), pos = (i : Int) ∧ (yieldsOf steps)[i]? = some (c, p) := by
   obtain ⟨i, p, e1, e2⟩ := popItems_src_addr cfg mk rm emptyP body ok steps { z := z } ty c pos hty hk h
-  exact ⟨i, p, by simpa using e1, e2⟩
+  refine ⟨i, p, ?_, e2⟩
+  rw [e1]
+  split <;> simp [srcPosAt]
 
 -- non-vacuity of the address theorems: a fiber with an explicit default at position 0
 example : (iterItems (σ := PUnit) (S := PUnit) "K" (fun (v : Int) => v == 0) (fun s _ _ => (s, PUnit.unit)) PUnit.unit 0
